@@ -14,7 +14,7 @@ use lzma_rs::decompress::raw::Lzma2Decoder;
 use lzma_rs::decompress::Options;
 
 const DEC: [&str; 5] = ["lzma_decompress_with_options", "lzma2_decompress", "xz_decompress", "raw LzmaDecoder", "raw Lzma2Decoder"];
-const SRC: [&str; 8] = [
+const SRC: [&str; 9] = [
     "lzma: C08 table cell",
     "lzma: C05 input (flipped / spliced / garbage / liblzma / ...)",
     "lzma2: valid chunk sequence (+ trailing)",
@@ -23,6 +23,7 @@ const SRC: [&str; 8] = [
     "xz: valid file with big header padding",
     "xz: bit-flipped / truncated / extended file",
     "random bytes",
+    "a valid file followed by (a prefix of) another valid file of the same kind",
 ];
 
 struct Input {
@@ -143,6 +144,33 @@ fn gen(rng: &mut Rng, tier: Tier) -> Input {
                     desc = format!("{} | {}", desc, mutate(rng, &mut data));
                 }
                 return Input { dec: 2, data, options: sut::default_options(), src, desc, raw: None, offsets };
+            }
+            8 => {
+                // what follows the end of a complete file looks like the start of another
+                let kind = rng.usize_below(3);
+                let mk = |rng: &mut Rng| -> Option<(Vec<u8>, Options)> {
+                    match kind {
+                        0 => c08::build(rng, tier).map(|b| (b.file, b.options)),
+                        1 => lzma2::write(&gen_chunks(rng, &L2Params::standard(2, 60))).ok().map(|w| (w.bytes, sut::default_options())),
+                        _ => Some((gen_xz(rng, &XzGenParams::small()).0.serialize().0, sut::default_options())),
+                    }
+                };
+                let (a, o) = match mk(rng) {
+                    Some(x) => x,
+                    None => continue,
+                };
+                let (b, _) = match mk(rng) {
+                    Some(x) => x,
+                    None => continue,
+                };
+                let mut data = a.clone();
+                if kind == 2 && rng.chance(1, 3) {
+                    data.extend(std::iter::repeat(0u8).take(4 * rng.range(1, 4) as usize));
+                }
+                let take = if rng.chance(1, 2) { b.len() } else { rng.range(1, b.len().min(14) as u64) as usize };
+                data.extend_from_slice(&b[..take]);
+                let dec = [0usize, if rng.chance(1, 2) { 1 } else { 4 }, 2][kind];
+                return Input { dec, data, options: o, src, desc: format!("complete input of {} bytes followed by the first {} of {} bytes of another one", a.len(), take, b.len()), raw: None, offsets: vec![a.len()] };
             }
             _ => {
                 let n = rng.range(0, 200) as usize;
@@ -292,7 +320,7 @@ pub fn monitor(tier: Tier) -> Monitor {
     Monitor {
         id: "C13",
         level: "exploration",
-        rule: "per input (valid and invalid; 8 sources: C08 table cells, C05 inputs, valid / mutated LZMA2 chunk sequences, valid .xz files incl. enlarged header padding, bit-flipped / truncated / extended .xz, random bytes) and decoder (5), the slice-reader run is compared with Cursor, BufReader of EVERY capacity 1..64 (1..16 for inputs > 4000 bytes), one random large capacity, capacities equal to every field boundary of generated .xz files (+-1), and five randomised short-read/short-fill readers: same verdict; on success same bytes and same consumed count; evaluations = decoder runs; distinct by hash of (input, decoder, options)",
+        rule: "per input (valid and invalid; 8 sources: C08 table cells, C05 inputs, valid / mutated LZMA2 chunk sequences, valid .xz files incl. enlarged header padding, bit-flipped / truncated / extended .xz, random bytes, a complete input followed by (a prefix of) another one) and decoder (5), the slice-reader run is compared with Cursor, BufReader of EVERY capacity 1..64 (1..16 for inputs > 4000 bytes), one random large capacity, capacities equal to every field boundary of generated .xz files (+-1), and five randomised short-read/short-fill readers: same verdict; on success same bytes and same consumed count; evaluations = decoder runs; distinct by hash of (input, decoder, options)",
         assumptions: vec![
             "differential oracle: the slice-reader run of lzma-rs itself".into(),
             "on Err, consumed counts / partial output / error text may differ for reasons internal to std's read_exact; error-text differences are recorded as warnings only".into(),
